@@ -69,6 +69,13 @@ static void report_fault(const char *op, const char *fam)
 static void post(const char *op, const char *fam)
 {
         disarm();
+        { static int ns; if (ns < 24) { ns++; char bl[400]; size_t o = 0; bl[0] = 0;   /* evidence: the first guarded calls of this worker, written out */
+          static const char *const pn[] = { "end-flush", "start-flush", "mid+canaries" };
+          for (int i = 0; i < nb && o + 60 < sizeof bl; i++) o += (size_t) snprintf(bl + o, sizeof bl - o, "%s[%zu]%s@%s ", bargs[i].name, bargs[i].g.size, bargs[i].ro ? " read-only" : "", heap_mode ? "heap" : pn[bargs[i].g.placement % 3]);
+          clog_on = 1;
+          clog_title("guarded calls: every argument buffer has exactly the size the API states and lies against PROT_NONE pages (or is an exact-size heap block under memcheck); inputs are mapped read-only during the call");
+          clog_event("%s | buffers: %s| returned without a fault; canaries and read-only inputs compared afterwards", cur_label, bl);
+          clog_on = 0; } }
         for (int i = 0; i < nb; i++) {
                 long where;
                 if (!heap_mode && !gcanary_ok(&bargs[i].g, &where)) {
